@@ -100,5 +100,6 @@ k('C13', 'result-type|String|fhir.valueless.*|got=Boolean', 'same defect: the re
 k('C13', 'to-errors|Integer|fhir.valueless.*|table=2', "same recorded defect as for strings: toInteger() on a string-like element whose text is not an integer (here the empty text of a value-less string, and the code of an unset enum) returns the strconv error instead of empty (asserted by the repository's TestToInteger)", {'src': "%x.toInteger() with %x = string element holding only an extension"})
 FIXED.append("fixed: property=C16 2eaab9e 'abcdef'.substring({}) / .substring(1, {}) / .startsWith({}) / .endsWith({}) / .contains({}) failed at evaluation with 'incorrect function arity: received 0 arguments, expected 1' although the call has the accepted argument count; found by the empty-position variants added for the seeded change C16-m3")
 FIXED.append("fixed: property=C18 6f54052 patch.Replace(AuditEvent.action, 'c') / Replace(Questionnaire.item.type, 'date-time') / Replace(Quantity.comparator, 'less-than') succeeded and set the codes C / dateTime / <, which the FHIR JSON tree cannot hold under those spellings (any string normalising to an enum name was accepted), while the real codes were rejected; found by the strict code model added for the seeded change C18-m4")
+FIXED.append("fixed: property=C02 9402bc5 with contained resources (or Bundle entries) of different types, `ActivityDefinition.contained.basedOn` failed with 'invalid field: based_on_value not a field on *Patient' instead of yielding the Observation's basedOn elements; found by the thorough tier (variant 4 carries two contained types), the quick tier now carries them in variant 1")
 if __name__ == '__main__':
     write()
